@@ -876,6 +876,18 @@ where
             return;
         }
 
+        // The entry has not been admitted yet. Ensure that it is still in the cache. It
+        // may have been removed (e.g. invalidated, or rejected by an earlier write op)
+        // while this op was waiting in the channel; admitting it now would leave
+        // deque nodes and counters for an entry that does not exist.
+        let kh = match self.cache.get(&kh.key) {
+            Some(r) if TrioArc::ptr_eq(r.value().entry_info(), entry.entry_info()) => {
+                // Use the key owned by the hash map for the deque nodes.
+                KeyHash::new(Arc::clone(r.key()), kh.hash)
+            }
+            _ => return,
+        };
+
         if self.has_enough_capacity(new_weight, counters) {
             // There are enough room in the cache (or the cache is unbounded).
             // Add the candidate to the deques.
@@ -902,7 +914,9 @@ where
                     _old_weight as u64,
                     new_weight as u64,
                 );
-                self.cache.remove(&Arc::clone(&kh.key));
+                // Remove the candidate, but not a newer value of the same key.
+                self.cache
+                    .remove_if(&kh.key, |_, v| TrioArc::ptr_eq(v, &entry));
                 return;
             }
         }
@@ -963,7 +977,9 @@ where
                 );
                 skipped_nodes = s;
                 // Remove the candidate from the cache (hash map).
-                self.cache.remove(&Arc::clone(&kh.key));
+                // Remove the candidate, but not a newer value of the same key.
+                self.cache
+                    .remove_if(&kh.key, |_, v| TrioArc::ptr_eq(v, &entry));
             }
         };
 
